@@ -784,6 +784,50 @@ fn search_address(obs: &[&str]) {
     }
 }
 
+// C11 (slice): duplicate member names are rejected and named; otherwise member names per kind mirror the order of appearance
+fn search_idl(obs: &[&str]) {
+    use std::convert::TryFrom;
+    use varlink_parser::IDL;
+    let mut found: std::collections::HashMap<&'static str, Value> = std::collections::HashMap::new();
+    let mut explored = 0;
+    let member = |kind: &str, name: &str| match kind { "method" => format!("method {}() -> ()", name), "type" => format!("type {} (a: int)", name), _ => format!("error {} (b: string)", name) };
+    let kinds = ["method", "type", "error"];
+    for k1 in kinds { for k2 in kinds { for same in [true, false] { for filler in [0usize, 1, 2] {
+        explored += 1;
+        let n2 = if same { "Foo" } else { "Bar" };
+        let mut text = String::from("interface org.example.dup\n");
+        text += &member(k1, "Foo"); text.push('\n');
+        for f in 0..filler { text += &member(kinds[f % 3], &format!("Fill{}", f)); text.push('\n'); }
+        text += &member(k2, n2); text.push('\n');
+        match IDL::try_from(text.as_str()) {
+            Ok(i) => {
+                if same { found.entry("dups").or_insert(json!({"text": text, "observed": "accepted", "expected": "Err(Idl) naming Foo"})); }
+                let all: Vec<&str> = i.method_keys.iter().chain(i.typedef_keys.iter()).chain(i.error_keys.iter()).cloned().collect();
+                let mut want: Vec<String> = vec!["Foo".into()]; for f in 0..filler { want.push(format!("Fill{}", f)); } want.push(n2.into());
+                let mut per_kind_ok = all.len() == want.len();
+                for (kind, keys) in [("method", &i.method_keys), ("type", &i.typedef_keys), ("error", &i.error_keys)] {
+                    let mut w: Vec<String> = Vec::new();
+                    if k1 == kind { w.push("Foo".into()); }
+                    for f in 0..filler { if kinds[f % 3] == kind { w.push(format!("Fill{}", f)); } }
+                    if k2 == kind { w.push(n2.into()); }
+                    if keys.iter().map(|s| s.to_string()).collect::<Vec<_>>() != w { per_kind_ok = false; }
+                }
+                if !same && !per_kind_ok { found.entry("order").or_insert(json!({"text": text, "method_keys": i.method_keys, "typedef_keys": i.typedef_keys, "error_keys": i.error_keys})); }
+            }
+            Err(varlink_parser::Error::Idl(msg)) => {
+                if !same { found.entry("nofalse").or_insert(json!({"text": text, "observed": format!("rejected: {}", msg), "expected": "accepted (all names distinct)"})); }
+                else if !msg.contains("`Foo`") { found.entry("dups").or_insert(json!({"text": text, "error": msg, "expected": "the duplicated name Foo named in the error"})); }
+            }
+            Err(e) => { found.entry("syntax").or_insert(json!({"text": text, "observed": format!("{}", e)})); }
+        }
+    }}}}
+    for ob in obs {
+        let class = match *ob { "C11.dups-reported" | "C11.reject-dups" => "dups", "C11.no-false-dups" | "C11.accept" => "nofalse", "C11.order" | "C11.mirror" => "order", "C11.reject-syntax" => "syntax", _ => "none" };
+        let f = found.get(class);
+        emit(ob, f.is_some(), explored, f.cloned().unwrap_or(Value::Null));
+    }
+}
+
 // C17: Request / Reply round trips over the full flag domain {unset, true, false}
 fn search_wire_roundtrip(obs: &[&str]) {
     let mut found = None;
@@ -865,6 +909,8 @@ fn main() {
     let lt: Vec<&str> = ["C15.idle", "C15.drain", "C15.drain-w", "C15.busy", "C15.stop", "C15.no-panic"].iter().cloned().filter(|o| m(o)).collect();
     if !lt.is_empty() { search_listen_time(&lt); }
     if m("C15.unlink") { search_unlink("C15.unlink"); }
+    let idl: Vec<&str> = ["C11.dups-reported", "C11.reject-dups", "C11.no-false-dups", "C11.accept", "C11.order", "C11.mirror", "C11.reject-syntax", "C11.no-panic"].iter().cloned().filter(|o| m(o)).collect();
+    if !idl.is_empty() { search_idl(&idl); }
     let ad: Vec<&str> = ["C16.scheme", "C16.params", "C16.activation", "C16.no-panic"].iter().cloned().filter(|o| m(o)).collect();
     if !ad.is_empty() { search_address(&ad); }
     if m("C03.info") { search_info_dups("C03.info"); }
